@@ -228,15 +228,12 @@ func (level Level) ShortTag(length int) string {
 	}
 
 	if t := level.String(); len(t) > 0 {
-		switch l := len(t); {
-		case l == length:
-			return t
-		case l < length:
-			t = t + strings.Repeat(" ", length)
-			fallthrough
-		default:
-			return t[:length]
+		// count characters, not bytes
+		r := []rune(t)
+		if len(r) >= length {
+			return string(r[:length])
 		}
+		return t + strings.Repeat(" ", length-len(r))
 	}
 	return strings.Repeat("?", length)
 }
